@@ -27,6 +27,54 @@ def decNats (f : String) : List Nat :=
 
 def tocAnchor (i : Nat) : Str := ("<a href=\"#k" ++ toString i ++ "\">t" ++ toString i ++ "</a>").toList
 
+abbrev Tables := List (String × List (String × Rx))
+
+def parseTable (f : String) : Option (List (String × Rx)) :=
+  if f.isEmpty then some [] else
+  (f.splitOn ";").mapM (fun item =>
+    match item.splitOn "=" with
+    | [n, w] => (Rx.parseWire w).map (fun r => (n, r))
+    | _ => none)
+
+def selectRules (tbl : List (String × Rx)) (names : String) : Option (List (String × Rx)) :=
+  if names.isEmpty then some [] else
+  (names.splitOn ",").mapM (fun n => (tbl.lookup n).map (fun r => (n, r)))
+
+def decRets (f : String) : List (Nat × Option Nat) :=
+  if f.isEmpty then [] else
+  (f.splitOn ",").filterMap (fun t =>
+    match t.splitOn ":" with
+    | [a, b] => some (a.toNat!, if b == "-" then none else some b.toNat!)
+    | _ => none)
+
+def encEvents (r : Except PyErr (List ScanEvent × Nat)) : String :=
+  match r with
+  | .error e => "error " ++ (repr e).pretty
+  | .ok (evs, fin) =>
+    ";".intercalate (evs.map (fun e => e.rule ++ "," ++ toString e.start ++ "," ++ toString e.stop ++ "," ++ toString e.cursor))
+      ++ "|" ++ toString fin
+
+/-- ops that need the rule tables defined earlier on this connection -/
+def handleT (tables : Tables) (fields : List String) : Option String :=
+  match fields with
+  | [op, tid, names, src, cur, rets] =>
+    if op == "block_loop" || op == "inline_loop" then
+      match tables.lookup tid with
+      | none => some "no-table"
+      | some tbl =>
+        match selectRules tbl names with
+        | none => some "unknown-rule"
+        | some rules =>
+          let s := decStr src
+          let x := mkCtx s s.length
+          let rs := decRets rets
+          let h : HandlerRet := fun _ mt => (rs.lookup mt.start).join
+          let c := cur.toNat!
+          if op == "block_loop" then some (encEvents (blockLoop x rules h (x.n + 1 - c) c []))
+          else some (encEvents (inlineLoop x rules h (x.n + 1 - c) c []))
+    else none
+  | _ => none
+
 def handle (fields : List String) : String :=
   match fields with
   | ["escape", q, s] => encStr (escape (decBool q) (decStr s))
@@ -84,15 +132,24 @@ def handle (fields : List String) : String :=
   | ["ping"] => "pong"
   | _ => "bad-op"
 
-partial def loop (h : IO.FS.Stream) (out : IO.FS.Stream) : IO Unit := do
+partial def loop (h : IO.FS.Stream) (out : IO.FS.Stream) (tables : Tables) : IO Unit := do
   let line ← h.getLine
   if line.isEmpty then return ()
   let line := if line.endsWith "\n" then (line.dropEnd 1).toString else line
-  out.putStrLn (handle (line.splitOn "\t"))
-  loop h out
+  let fields := line.splitOn "\t"
+  match fields with
+  | ["deftable", tid, body] =>
+    match parseTable body with
+    | some t => out.putStrLn "ok"; loop h out ((tid, t) :: tables)
+    | none => out.putStrLn "bad-table"; loop h out tables
+  | _ =>
+    match handleT tables fields with
+    | some r => out.putStrLn r
+    | none => out.putStrLn (handle fields)
+    loop h out tables
 
 def main : IO Unit := do
   let i ← IO.getStdin
   let o ← IO.getStdout
-  loop i o
+  loop i o []
   o.flush
